@@ -175,7 +175,7 @@ class Namespace(Imm):
 # ------------------------------------------------------------------------------------------------
 # module environments
 # ------------------------------------------------------------------------------------------------
-REAL_MODULE_PREFIXES = ("pandapower.pypower.idx_",)
+REAL_MODULE_PREFIXES = ()   # repository modules are never imported natively: their source is interpreted
 REAL_MODULES = {"math": None, "operator": None, "itertools": None, "functools": None, "numbers": None,
                 "collections": None, "re": None, "typing": None, "enum": None, "abc": None,
                 "collections.abc": None, "string": None, "packaging": None, "packaging.version": None}
@@ -248,6 +248,7 @@ class Env:
         self.parent = parent   # enclosing function env (closures)
         self.func = func
         self.globals_decl = set()
+        self.merging = 0      # > 0 while a branch of a merged `if` of this very frame is executed speculatively
 
     def lookup(self, name, interp):
         e = self
@@ -398,7 +399,7 @@ class Interp:
         if full in self.stub_modules:
             return self.stub_modules[full]
         top = full.split(".")[0]
-        if full in REAL_MODULES or full.startswith(REAL_MODULE_PREFIXES):
+        if full in REAL_MODULES:
             return importlib.import_module(full)
         if top in self.stub_modules and full == top:
             return self.stub_modules[top]
@@ -410,7 +411,7 @@ class Interp:
         if mod in self.stub_modules:
             s = self.stub_modules[mod]
             return s.get(attr) if isinstance(s, Namespace) else getattr(s, attr)
-        if mod in REAL_MODULES or mod.startswith(REAL_MODULE_PREFIXES):
+        if mod in REAL_MODULES:
             return getattr(importlib.import_module(mod), attr)
         sub = f"{mod}.{attr}"
         if sub in self.stub_modules:
@@ -1205,7 +1206,7 @@ class Interp:
             selfv = env.lookup(env.func.node.args.args[0].arg, self) if env.func is not None else None
             return SuperProxy(selfv, env.func.cls)
         if isinstance(node.func, ast.Name) and node.func.id == "locals" and not node.args:
-            return PDict({k: v for k, v in env.local.items()})
+            return PDict({k: v for k, v in env.local.items() if not k.startswith('__')})
         f = self.ev(node.func, env)
         args = []
         for a in node.args:
@@ -1428,7 +1429,18 @@ class Interp:
                 self.ex_block(f.node.body, env)
             except _Return as r:
                 return r.value
-            return None
+            r = env.local.get("__returned__", False)
+            if r is False:
+                return None
+            if r is True:
+                return env.local.get("__ret__")
+            # returned under a symbolic condition, fell off the end otherwise (returns None)
+            try:
+                return self.merge_values(r, env.local.get("__ret__"), None)
+            except CannotMerge:
+                if self.truth(r, tag="early return taken"):
+                    return env.local.get("__ret__")
+                return None
         finally:
             self.call_depth -= 1
 
@@ -1474,6 +1486,24 @@ class Interp:
         first = self.ev(node.generators[0].iter, env)
         if isinstance(first, Opaque):
             return Opaque(f"comprehension over {first.why}")
+        if hasattr(first, "generic_row"):
+            # comprehension over a column: the same scalar expression for the generic row (A-GENERIC)
+            g = node.generators[0]
+            if len(node.generators) != 1 or g.ifs:
+                raise EngineError("comprehension over a column with filters / nesting")
+            space, mask, e = first.generic_row()
+            self.assign(g.target, e, cenv)
+            self.ctx.merge_mode += 1
+            self.ctx.merge_guards.append(z3.BoolVal(True) if mask is True else mask)
+            try:
+                try:
+                    val = self.ev(node.elt, cenv)
+                except CannotMerge:
+                    raise EngineError("comprehension over a column: element expression is not a pure scalar expression")
+            finally:
+                self.ctx.merge_mode -= 1
+                self.ctx.merge_guards.pop()
+            return first.make_like(val)
         if self.ctx.merge_mode:
             try:
                 self._comp(node.generators, cenv, lambda e, g: out.append(self.ev(node.elt, e)))
@@ -1560,8 +1590,36 @@ class Interp:
 
     # -- statements -------------------------------------------------------------------------------
     def ex_block(self, stmts, env):
-        for st in stmts:
+        for k, st in enumerate(stmts):
             self.ex(st, env)
+            r = env.local.get("__returned__", False)
+            if r is False:
+                continue
+            if r is True:
+                if env.merging:
+                    raise _BranchReturned()
+                raise _Return(env.local.get("__ret__"))
+            rz = z3.simplify(truth_z(r))
+            if z3.is_false(rz):
+                env.local["__returned__"] = False
+                continue
+            if z3.is_true(rz):
+                env.local["__returned__"] = True
+                if env.merging:
+                    raise _BranchReturned()
+                raise _Return(env.local.get("__ret__"))
+            rest = stmts[k + 1:]
+            if not rest:
+                return
+            # the function has returned under condition r: the rest of the block runs under (not r)
+            if self._mergeable(rest) and self._merged_if(SV(z3.Not(rz)), rest, [], env):
+                return
+            if self.ctx.decide(rz, tag="early return taken"):
+                env.local["__returned__"] = True
+                if env.merging:
+                    raise _BranchReturned()
+                raise _Return(env.local.get("__ret__"))
+            env.local["__returned__"] = False
 
     def ex(self, node, env):
         self.ctx.steps += 1
@@ -1731,9 +1789,13 @@ class Interp:
             raise EngineError(f"assignment target {type(t).__name__}")
 
     def ex_Return(self, node, env):
-        if self.ctx.merge_mode:
-            raise CannotMerge()
-        raise _Return(self.ev(node.value, env) if node.value is not None else None)
+        v = self.ev(node.value, env) if node.value is not None else None
+        if env.merging:
+            # if-conversion of an early return inside a speculatively executed branch
+            env.local["__ret__"] = v
+            env.local["__returned__"] = True
+            raise _BranchReturned()
+        raise _Return(v)
 
     def ex_Raise(self, node, env):
         if self.ctx.merge_mode:
@@ -1762,12 +1824,12 @@ class Interp:
         return False
 
     def ex_Break(self, node, env):
-        if self.ctx.merge_mode:
+        if env.merging:
             raise CannotMerge()
         raise _Break()
 
     def ex_Continue(self, node, env):
-        if self.ctx.merge_mode:
+        if env.merging:
             raise CannotMerge()
         raise _Continue()
 
@@ -1801,7 +1863,7 @@ class Interp:
                 continue
             if isinstance(st, ast.If) and self._mergeable(st.body) and self._mergeable(st.orelse):
                 continue
-            if isinstance(st, ast.Raise):
+            if isinstance(st, (ast.Raise, ast.Return)):
                 continue
             return False
         return True
@@ -1819,57 +1881,78 @@ class Interp:
             self.ex_block(node.orelse, env)
             return
         if self._mergeable(node.body) and self._mergeable(node.orelse):
-            saved = dict(env.local)
-            self.ctx.merge_mode += 1
-            try:
-                try:
-                    lt = lf = None
-                    env.local = dict(saved)
-                    self.ctx.merge_guards.append(cs.z)
-                    try:
-                        self.ex_block(node.body, env)
-                        lt = env.local
-                    except _DeadBranch:
-                        pass
-                    finally:
-                        self.ctx.merge_guards.pop()
-                    env.local = dict(saved)
-                    self.ctx.merge_guards.append(z3.Not(cs.z))
-                    try:
-                        self.ex_block(node.orelse, env)
-                        lf = env.local
-                    except _DeadBranch:
-                        pass
-                    finally:
-                        self.ctx.merge_guards.pop()
-                    if lt is None and lf is None:
-                        raise _DeadBranch()
-                    if lt is None or lf is None:
-                        env.local = saved
-                        env.local.update(lt if lf is None else lf)
-                        return
-                    merged = {}
-                    for k in set(lt) | set(lf):
-                        if k in lt and k in lf:
-                            merged[k] = self.merge_values(cs, lt[k], lf[k])
-                        elif k in lt:
-                            merged[k] = MaybeUndef(cs, lt[k])
-                        else:
-                            merged[k] = MaybeUndef(snot(cs), lf[k])
-                    env.local = saved
-                    env.local.update(merged)
-                    return
-                except (CannotMerge, PyRaise, NeedFork):
-                    env.local = saved
-                except _DeadBranch:
-                    env.local = saved
-                    raise
-            finally:
-                self.ctx.merge_mode -= 1
+            if self._merged_if(cs, node.body, node.orelse, env):
+                return
         if self.ctx.decide(cs.z, tag=f"if@{node.lineno}"):
             self.ex_block(node.body, env)
         else:
             self.ex_block(node.orelse, env)
+
+    def _merged_if(self, cs, body, orelse, env):
+        """execute both branches speculatively (no side effects allowed) and join the local environments with
+        if-then-else terms. Early `return`s inside the branches are if-converted (__returned__/__ret__).
+        Returns False when the branches cannot be merged (the caller then forks)."""
+        saved = dict(env.local)
+        self.ctx.merge_mode += 1
+        env.merging += 1
+        try:
+            try:
+                lt = lf = None
+                env.local = dict(saved)
+                self.ctx.merge_guards.append(cs.z)
+                try:
+                    self.ex_block(body, env)
+                    lt = env.local
+                except _BranchReturned:
+                    lt = env.local
+                except _DeadBranch:
+                    pass
+                finally:
+                    self.ctx.merge_guards.pop()
+                env.local = dict(saved)
+                self.ctx.merge_guards.append(z3.Not(cs.z))
+                try:
+                    self.ex_block(orelse, env)
+                    lf = env.local
+                except _BranchReturned:
+                    lf = env.local
+                except _DeadBranch:
+                    pass
+                finally:
+                    self.ctx.merge_guards.pop()
+                if lt is None and lf is None:
+                    raise _DeadBranch()
+                if lt is None or lf is None:
+                    env.local = saved
+                    env.local.update(lt if lf is None else lf)
+                    return True
+                merged = {}
+                for k in set(lt) | set(lf):
+                    if k == "__ret__":
+                        if k in lt and k in lf:
+                            merged[k] = lt[k] if lt[k] is lf[k] else self.merge_values(cs, lt[k], lf[k])
+                        else:
+                            merged[k] = lt[k] if k in lt else lf[k]   # only read under __returned__
+                    elif k == "__returned__":
+                        merged[k] = self.merge_values(cs, lt.get(k, False), lf.get(k, False))
+                    elif k in lt and k in lf:
+                        merged[k] = self.merge_values(cs, lt[k], lf[k])
+                    elif k in lt:
+                        merged[k] = MaybeUndef(cs, lt[k])
+                    else:
+                        merged[k] = MaybeUndef(snot(cs), lf[k])
+                env.local = saved
+                env.local.update(merged)
+                return True
+            except (CannotMerge, PyRaise, NeedFork):
+                env.local = saved
+                return False
+            except _DeadBranch:
+                env.local = saved
+                raise
+        finally:
+            self.ctx.merge_mode -= 1
+            env.merging -= 1
 
     def ex_For(self, node, env):
         it = self.ev(node.iter, env)
@@ -1884,8 +1967,20 @@ class Interp:
                 break
             except _Continue:
                 continue
+            self._settle_partial_return(env)
         if not broke:
             self.ex_block(node.orelse, env)
+
+    def _settle_partial_return(self, env):
+        r = env.local.get("__returned__", False)
+        if r is False or r is True:
+            return
+        if self.truth(r, tag="early return taken (loop)"):
+            env.local["__returned__"] = True
+            if env.merging:
+                raise _BranchReturned()
+            raise _Return(env.local.get("__ret__"))
+        env.local["__returned__"] = False
 
     def ex_While(self, node, env):
         n = 0
@@ -1958,6 +2053,10 @@ class Interp:
 
 class NeedFork(Exception):
     pass
+
+
+class _BranchReturned(Exception):
+    """a speculatively executed branch ended with `return` (recorded in __returned__/__ret__)"""
 
 
 class _DeadBranch(Exception):
